@@ -10,8 +10,8 @@ import PpciVerif.Model.DataSeg
   v <cfg> | <shape> | <skeleton>   → ok <acc|rej> <same|model:<tokens>|err:<Exc>>
         validator verdict on the real skeleton + does Model.compile(shape) reproduce it
   s <shape>                        → ok <tokens…> | err <Exc>        (Model.compile alone)
-  d <cfg> | <skeleton> | L K F     → ok same | ok differ bits=… cfg=… wasm=…
-        search all 2^L decision oracles (bit k = k-th conditional jump executed) for one on which the traces differ
+  d <cfg> | <skeleton> | L K F R   → ok same | ok inconclusive | ok differ bits=… cfg=… wasm=…
+        search all 2^L decision oracles (bit k = k-th conditional jump executed) (then R pseudo-random 48-decision oracles) for one on which the traces differ
   t <cfg> | <skeleton> | <bits> K F → ok cfg=<blocks>/<done> wasm=<kind>:<blocks>
   lay <base> <amount>:<len> …      → ok <addr> … end=<addr>           (Model.DataSeg.layout)
   img <base> <amount>:<hex> … @ <addr> <n>  → ok <hex>                (initial memory image)
@@ -197,18 +197,38 @@ def allBits : Nat → List (List Bool)
   | 0 => [[]]
   | n+1 => (allBits n).flatMap (fun b => [false :: b, true :: b])
 
-/-- first oracle on which the sides differ (confirmed with the real `exec`), and
-    whether some oracle was inconclusive -/
-def search (g : Cfg) (w : W) (L K F : Nat) : Option (List Bool) × Bool :=
-  (allBits L).foldl (fun (acc : Option (List Bool) × Bool) bits =>
-    match acc.1 with
+/-- pseudo-random bit lists (LCG), for oracles with many decisions -/
+def lcgBits (seed len : Nat) : List Bool :=
+  ((List.range len).foldl (fun (acc : Nat × List Bool) _ =>
+    let x := (acc.1 * 1103515245 + 12345) % 2147483648
+    (x, (x / 65536 % 2 == 1) :: acc.2)) (seed * 7919 + 17, [])).2
+
+/-- can the difference be replayed by executing both sides: the CFG run returns and
+    the wasm run ends (returns or falls off the end) -/
+def replayable (g : Cfg) (w : W) (o : Oracle) (K F : Nat) : Bool :=
+  (cfgTrace g o K).done && (match execK g o K F w St.init with | .ret _ => true | .fall _ => true | _ => false)
+
+/-- an oracle on which the sides differ (confirmed with the real `exec`), preferring a
+    replayable one, and whether some oracle was inconclusive: all `2^L` decision
+    prefixes, then `R` pseudo-random oracles of 48 decisions -/
+def search (g : Cfg) (w : W) (L K F R : Nat) : Option (List Bool) × Bool :=
+  let r := (allBits L ++ (List.range R).map (fun i => lcgBits i 48)).foldl
+    (fun (acc : Option (List Bool) × Option (List Bool) × Bool) bits =>
+    match acc.2.1 with
     | some _ => acc
     | none =>
       let o := oracleOf g bits
       match judge (execK g o K F w St.init) g o K with
       | 0 => acc
-      | 1 => if judge (exec g o F w St.init) g o K == 1 then (some bits, acc.2) else (none, true)
-      | _ => (none, true)) (none, false)
+      | 1 =>
+        if judge (exec g o F w St.init) g o K == 1 then
+          let first := match acc.1 with | some b => some b | none => some bits
+          if replayable g w o K F then (first, some bits, acc.2.2) else (first, none, acc.2.2)
+        else (acc.1, none, true)
+      | _ => (acc.1, none, true)) (none, none, false)
+  match r.2.1 with
+  | some b => (some b, r.2.2)
+  | none => (r.1, r.2.2)
 
 def parseVar (s : String) : Option (Nat × String) :=
   match s.splitOn ":" with
@@ -240,16 +260,16 @@ def step (line : String) : String :=
     | none => "bad-op"
   | "d" :: rest =>
     match splitBar rest with
-    | [c, sk, [l, k, f]] =>
-      match parseCfg c, parseW sk, l.toNat?, k.toNat?, f.toNat? with
-      | some g, some w, some L, some K, some F =>
-        match search g w L K F with
+    | [c, sk, [l, k, f, r]] =>
+      match parseCfg c, parseW sk, l.toNat?, k.toNat?, f.toNat?, r.toNat? with
+      | some g, some w, some L, some K, some F, some R =>
+        match search g w L K F R with
         | (none, false) => "ok same"
         | (none, true) => "ok inconclusive"
         | (some bits, _) =>
           let o := oracleOf g bits
           s!"ok differ bits={showBits bits} cfg={showTrace (cfgTrace g o K)} wasm={showOut (execK g o K F w St.init)}"
-      | _, _, _, _, _ => "bad-op"
+      | _, _, _, _, _, _ => "bad-op"
     | _ => "bad-op"
   | "t" :: rest =>
     match splitBar rest with
